@@ -80,7 +80,9 @@ def c14(ck):
                "construction paths; allowed result = StructEq of the values Def.tla computes; replayed through "
                "lisp.EVAL; then the OBSERVED Boolean matrix is validated by TraceEq.tla (reflexive, symmetric, "
                "transitive). distinct = distinct ordered pairs")
-    r = gen_and_replay_keep(ck, "GenC14", {})
+    r = gen_and_replay_keep(ck, "GenC14", {"Mode": '"pairs"'})
+    # operands derived from ONE value (possible structure sharing in the implementation)
+    gen_and_replay(ck, "GenC14", {"Mode": '"shared"'})
     ck.exhaustive = True
     # Direction B: the observed relation must be an equivalence (checked by TLC on the recorded matrix)
     rows = {}
